@@ -2,6 +2,7 @@ package main
 
 import (
 	"encoding/json"
+	"github.com/josephburnett/jd/v2/verif/simos"
 	"strings"
 )
 
@@ -93,6 +94,11 @@ func shrinkSession(s Session) []Session {
 	if len(s.Procs) > 1 {
 		d := cp()
 		d.Procs = d.Procs[:len(d.Procs)-1]
+		out = append(out, d)
+	}
+	if s.Clock.Mode != "" {
+		d := cp()
+		d.Clock = simos.ClockPolicy{}
 		out = append(out, d)
 	}
 	if s.Sector != 4096 {
